@@ -746,6 +746,11 @@ impl UnifiedCommandExecutor {
             }
             
             StringCommand::SetRange { key, offset, value } => {
+                // Strings are limited to 512 MB, as in the command handler
+                const MAX_STRING_LEN: usize = 512 * 1024 * 1024;
+                if offset.checked_add(value.len()).map(|end| end > MAX_STRING_LEN).unwrap_or(true) {
+                    return Ok(RespFrame::error("ERR string exceeds maximum allowed size (512MB)"));
+                }
                 let new_len = self.storage.setrange(db, key, offset, value)?;
                 Ok(RespFrame::Integer(new_len as i64))
             }
